@@ -131,3 +131,35 @@ package ice
 // The alive timer is only ever stopped: nothing in the package re-arms a timer except the
 // agent's connectivity-check ticker.
 //@ enumerate C15 calls time.(*Timer).Reset in (*Agent).connectivityChecks
+
+// MultiTCPMuxDefault: one packet connection per underlying mux (all or none), removal
+// and close reach every underlying mux.
+//@ func (*MultiTCPMuxDefault).RemoveConnByUfrag
+//@   props C15
+//@   opt nosafety
+//@   ghostvar removed int = 0
+//@   loop 1 invariant every-mux-so-far-was-asked: removed == rangeindex + 1 && rangeindex + 1 <= old(len(m.muxes))
+//@   site call RemoveConnByUfrag#1 assert asks-each-underlying-mux-for-this-ufrag: arg0 == ufrag && recv == mux
+//@   site call RemoveConnByUfrag#1 ghost removed := removed + 1
+//@   ensures removed-from-every-underlying-mux: removed == old(len(m.muxes))
+
+//@ func (*MultiTCPMuxDefault).Close
+//@   props C15
+//@   opt nosafety
+//@   ghostvar closedN int = 0
+//@   loop 1 invariant every-mux-so-far-was-closed: closedN == rangeindex + 1 && rangeindex + 1 <= old(len(m.muxes))
+//@   site call Close#1 assert closes-each-underlying-mux: recv == mux
+//@   site call Close#1 ghost closedN := closedN + 1
+//@   ensures every-underlying-mux-closed-even-after-an-error: closedN == old(len(m.muxes))
+
+//@ func (*MultiTCPMuxDefault).GetAllConns
+//@   props C15
+//@   opt nosafety
+//@   site call GetConnByUfrag#1 assert asks-each-mux-for-exactly-this-key: recv == mux && arg0 == ufrag && arg1 == isIPv6 && arg2 == local
+//@   ensures no-mux-is-an-error: old(len(m.muxes)) == 0 ==> result0 == nil && result1 != nil
+
+//@ func (*MultiTCPMuxDefault).GetConnByUfrag
+//@   props C15
+//@   opt nosafety
+//@   site call GetConnByUfrag#1 assert first-mux-with-exactly-this-key: recv == m.muxes[0] && arg0 == ufrag && arg1 == isIPv6 && arg2 == local
+//@   ensures no-mux-is-an-error: old(len(m.muxes)) == 0 ==> result0 == nil && result1 != nil
